@@ -107,6 +107,9 @@ struct Config {
     uint16_t sig_scheme = 0;                  // 0 = rsa_pss_rsae_sha256 for RSA keys, ecdsa_secp256r1_sha256 for EC keys
     std::string sni = "localhost";            // client: server_name ("" = none)
     bool compat_session_id = true;            // client: 32 byte legacy_session_id (middlebox compatibility mode)
+    Bytes psk_identity;                       // client: non-empty = offer this PskIdentity in a pre_shared_key extension (last extension of the ClientHello)
+    uint32_t psk_obfuscated_age = 0;          //         with this obfuscated_ticket_age
+    Bytes psk_binder;                         //         and this binder (empty = 32 seed-derived bytes; the puppet holds no PSK, so a server must decline the offer)
     bool trace = false;                       // print what is sent / received to stderr
 };
 
@@ -127,6 +130,7 @@ struct Seen {
     int finished_ok = -1;                     // peer's Finished: -1 not seen, 0 bad, 1 matches the puppet's transcript
     uint16_t cv_scheme = 0;
     uint16_t cipher_suite = 0, selected_group = 0, selected_version = 0;
+    int selected_psk = -1;                    // client role: selected_identity of a pre_shared_key extension in the ServerHello (-1 = none)
     Bytes peer_random, session_id;
     std::vector<uint16_t> offered_suites, offered_groups, offered_sigalgs, offered_versions;
     std::vector<std::pair<uint16_t, Bytes>> key_shares;   // client shares / the server share
